@@ -120,3 +120,13 @@ Proof.
   split; [intros; apply gen_kappa_T_pm|]. intros; apply gen_kappa_total_model.
 Qed.
 Print Assumptions C11_thermal_conductivity_assembly_as_coded.
+
+(* the assembly of the two matrices as coded in q() / qhat() -- which of the sixteen collision-integral arrays each block is given,
+   the lower blocks as powers of the mass ratio times the upper ones, the np.block layout -- regenerated on every run, is the
+   block layout of the model, whose blocks the theorems above identify with the first-principles elements *)
+Theorem C11_assembly_as_coded : forall (Q : qints) (masses : nat -> R) (nb : nat) (nd : nat -> R) (a b i j : nat),
+  gen_qblock RNum (I11 Q) (I12 Q) (I13 Q) (I14 Q) (I15 Q) (I16 Q) (I17 Q) (I22 Q) (I23 Q) (I24 Q) (I25 Q) (I26 Q)
+             (I33 Q) (I34 Q) (I35 Q) (I44 Q) masses nb nd a b i j = qblock RNum Q masses nb nd a b i j /\
+  gen_qhatblock RNum (I11 Q) (I12 Q) (I13 Q) (I22 Q) (I23 Q) (I24 Q) (I33 Q) masses nb nd a b i j = qhatblock RNum Q masses nb nd a b i j.
+Proof. intros. split; [apply gen_qblock_model | apply gen_qhatblock_model]. Qed.
+Print Assumptions C11_assembly_as_coded.
